@@ -354,6 +354,7 @@ def _evaluator(ctx, repo):
         ctx.violation("E", "lowest-bin", m.loc(loop or fn), "the polynomial increment is not restricted to bins above the lowest (whose lower threshold is -inf)")
     _multiplier_path(ctx, m, fn, th, rates, ic, binvar, incvar)
     _call_sites(ctx, repo)
+    _generator_exact(ctx, m)
 
 
 def _multiplier_path(ctx, m, fn, th, rates, ic, binvar, incvar, _depth=0, _rename=None):
@@ -524,3 +525,22 @@ def _call_sites(ctx, repo):
                 ctx.violation("CS", f"{r.qual}|{'/'.join(sorted(set(bases.values())))}", f"src/_gettsim/{r.mod.rel}:{c.lineno} {r.name}", f"piecewise_polynomial is called with parts of different schedules: {bases} - intercepts that were generated for other thresholds / rates make the function jump at every threshold")
     ctx.extra_cov["piecewise_call_sites"] = n
     ctx.floor("CS", 8)
+
+
+def _generator_exact(ctx, m):
+    """G0 (expected count zero): the functions that generate and evaluate schedules do no rounding - an intercept
+    that is not the exact left limit of its piece is a jump at the threshold (and possibly a downward one)."""
+    ctx.rule("G0", "no function of piecewise_functions.py rounds (round / around / rint / ceil / floor / trunc / astype(int)): generated intercepts are the exact left limits, so the schedule is continuous at every threshold")
+    n = 0
+    for name, fd in m.functions.items():
+        n += 1
+        for c in ast.walk(fd):
+            if isinstance(c, ast.Call):
+                f = ast.unparse(c.func)
+                last = f.split(".")[-1]
+                bad = last in ("round", "around", "rint", "ceil", "floor", "trunc", "fix", "round_") or (last == "astype" and c.args and ast.unparse(c.args[0]) in ("int", "numpy.int64", "np.int64"))
+                if bad:
+                    ctx.ob("G0", ok=False, distinct=(name, c.lineno))
+                    ctx.violation("G0", f"{name}|{ast.unparse(c)[:60]}", m.loc(c) + f" {name}", f"`{ast.unparse(c)[:80]}` rounds inside the schedule machinery: the stored intercepts no longer equal the left limits of their pieces, the schedule jumps (up or down) by the rounding error at interior thresholds")
+    ctx.ob("G0", ok=True, distinct="functions scanned", n=max(n, 1))
+    ctx.floor("G0", 5)
